@@ -466,6 +466,11 @@ class Builder:
                         # `<parser>.parse_next(input)?;` — a step whose result is dropped
                         steps.append({"pat": {"k": "wild", "l": st.get("l")}, "p": inv, "l": st.get("l")})
                         continue
+                if e.get("k") == "macro" and e.get("name") in ("assert", "debug_assert", "assert_eq", "debug_assert_eq", "assert_ne", "debug_assert_ne") and e.get("args") and not (inp and F.find_all(e["args"], lambda n_: isinstance(n_, dict) and n_.get("k") == "path" and n_.get("segs") == [inp])) and not F.find_all(e["args"], lambda n_: isinstance(n_, dict) and ((n_.get("k") == "binary" and n_.get("op", "").endswith("=") and n_["op"] not in ("==", "!=", "<=", ">=")) or n_.get("k") in ("assign", "closure"))):
+                    # an assertion about values already parsed: it reads no input and yields nothing — as a parser the function
+                    # is what it is without it.  Whether it can fire is a panic question (C03 census) and a profile question
+                    # (C17.cfg), decided there.
+                    continue
                 unknown.append(st)
                 continue
             if st["k"] == "item":
@@ -1143,6 +1148,16 @@ class Builder:
                 return N("ctx", e, kind="unknown", s=src(args[0]), p=p)
             return N("ctx", e, kind=c[0], s=c[1], p=p)
         if m == "map" and len(args) == 1:
+            f0 = strip_refs(args[0]) if isinstance(args[0], dict) else args[0]
+            if isinstance(f0, dict) and f0.get("k") == "closure" and len(f0.get("params", [])) == 1:
+                # `.map(|x| x)`: the identity (what is left of `.map(|x| { log::debug!(..); x })`)
+                pp, bb = f0["params"][0], f0["body"]
+                while isinstance(pp, dict) and pp.get("k") == "typed":
+                    pp = pp["pat"]
+                while isinstance(bb, dict) and bb.get("k") == "paren":
+                    bb = bb["e"]
+                if isinstance(pp, dict) and pp.get("k") == "ident" and not pp.get("by_ref") and isinstance(bb, dict) and bb.get("k") == "path" and bb.get("segs") == [pp["name"]]:
+                    return self.pe(recv, env)
             return N("map", e, p=self.pe(recv, env), f=args[0])
         if m == "value" and len(args) == 1:
             return N("value", e, p=self.pe(recv, env), v=args[0])
